@@ -575,6 +575,35 @@ func stat(name string, v int64) {
 	statMu.Unlock()
 }
 
+// freshNode starts a new node with a new tap and stops the previous one. The
+// relations of terminated consumers are never removed by the framework (not
+// this property), so a long-lived node makes every ProcessInfo slower and slower.
+func freshNode() {
+	old := node
+	t := newTap()
+	n, err := hk.StartNode(hk.NodeCfg{Name: hk.UniqueName("c04n"), Tweak: func(o *gen.NodeOptions) { o.TargetManager = t }})
+	if err != nil {
+		fmt.Fprintln(os.Stderr, "start node:", err)
+		os.Exit(3)
+	}
+	if old != nil {
+		panicLines += old.Cap.Panics.Load()
+		old.StopForce()
+	}
+	node, tm = n, t
+}
+
+var caseSeq int
+var panicLines int64
+
+// nextCase is called at the beginning of every case
+func nextCase() {
+	caseSeq++
+	if caseSeq%400 == 0 {
+		freshNode()
+	}
+}
+
 func main() {
 	hk.InstallHook()
 	hk.Rule("D (directed): target kind {pid, name, alias, event, meta-process alias} x {link, monitor} x cause {Kill, handler error, unregister by owner, Node.UnregisterName, meta stop / handler error} x order of the steps check(C), insert(I) of the requester and table delete(X), drain(Y), continuation(Z) of the terminator: CIXY CXIY CXYI XCY YCZ XYCI, forced by gates at link.checked, proc.unreg.* / node.unregname.deleted and at the entry/exit of TargetManager.CleanupTarget (tap); the same for the REMOVAL of an established relation (UXY XUY YUZ XYU); DeleteAlias bookkeeping (n aliases, delete #i, watch #j); LinkChild with the parent parked at proc.spawn.linked; LinkParent. Non-trivial iff the order MEASURED from hook ticks and tap records equals the intended one. " +
@@ -583,13 +612,7 @@ func main() {
 	hk.Assume("observers are act.Actor processes with SetTrapExit(true); an exit signal from the parent is not trappable in act.Actor and is observed as the terminate reason of the child")
 	hk.Assume("local targets only (one node, networking disabled); remote links/monitors go through the network layer and are not exercised here")
 	hk.Assume("a relation whose consumer has terminated expects nothing; consumers that die in the same step as the target (cascade through LinkParent) are not judged for other notifications of that step")
-	var err error
-	tm = newTap()
-	node, err = hk.StartNode(hk.NodeCfg{Name: "c04", Tweak: func(o *gen.NodeOptions) { o.TargetManager = tm }})
-	if err != nil {
-		fmt.Fprintln(os.Stderr, "start node:", err)
-		os.Exit(3)
-	}
+	freshNode()
 	t0 := time.Now()
 	runDirectedAll()
 	tD := time.Since(t0)
@@ -611,9 +634,7 @@ func main() {
 	}
 	hk.Note("hook_hits", hits)
 	hk.Note("hook_delays", d)
-	if n := node.Cap.Panics.Load(); n > 0 {
-		hk.Note("framework_panic_log_lines", node.Cap.PanicLines())
-	}
+	hk.Note("framework_panic_log_lines_total", panicLines+node.Cap.Panics.Load())
 	os.Stdout.Sync()
 	os.Exit(0)
 }
